@@ -1802,9 +1802,10 @@ func (patternMatchingSelf PatternMatching) MatchFor(inValue interface{}) interfa
 		value := inValue
 		maybe := Maybe.Just(inValue)
 		if maybe.IsKind(reflect.Ptr) {
-			ptr := maybe.ToPtr()
-			if reflect.TypeOf(*ptr).Kind() == (reflect.TypeOf(CompData{}).Kind()) {
-				value = *ptr
+			if ptr := maybe.ToPtr(); ptr != nil {
+				if t := reflect.TypeOf(*ptr); t != nil && t.Kind() == (reflect.TypeOf(CompData{}).Kind()) {
+					value = *ptr
+				}
 			}
 		}
 
